@@ -23,6 +23,8 @@ import (
 	"errors"
 	"fmt"
 	"io"
+	"math/rand"
+	"net"
 	nethttp "net/http"
 	"strings"
 	"sync"
@@ -50,7 +52,9 @@ func (c20Follower) Query(ctx context.Context, qr *command.QueryRequest) ([]*comm
 func (c20Follower) Request(ctx context.Context, eqr *command.ExecuteQueryRequest) ([]*command.ExecuteQueryResponse, uint64, uint64, error) {
 	return nil, 0, 0, store.ErrNotLeader
 }
-func (c20Follower) Load(ctx context.Context, lr *command.LoadRequest) error { return store.ErrNotLeader }
+func (c20Follower) Load(ctx context.Context, lr *command.LoadRequest) error {
+	return store.ErrNotLeader
+}
 func (c20Follower) Backup(ctx context.Context, br *command.BackupRequest, dst io.Writer) error {
 	return store.ErrNotLeader
 }
@@ -58,7 +62,7 @@ func (c20Follower) Remove(ctx context.Context, rn *command.RemoveNodeRequest) er
 	return store.ErrNotLeader
 }
 func (c20Follower) Stepdown(wait bool, id string) error { return store.ErrNotLeader }
-func (c20Follower) LeaderAddr() (string, error)       { return "leader-raft:4002", nil }
+func (c20Follower) LeaderAddr() (string, error)         { return "leader-raft:4002", nil }
 func (c20Follower) Leader() (*store.Server, error) {
 	return &store.Server{ID: "n1", Addr: "leader-raft:4002"}, nil
 }
@@ -166,8 +170,9 @@ func TestVerif_C20_HTTPForward(t *testing.T) {
 		st := c20Follower{}
 		svc := New("127.0.0.1:0", st, remote, proxy.New(st, remote), nil)
 		svc.logger.SetOutput(io.Discard)
-		if err := svc.Start(); err != nil {
-			rt.Skipf("infrastructure: %v", err)
+		if err := c20Retry(svc.Start); err != nil {
+			rec.Label("inconclusive:infrastructure")
+			return
 		}
 		defer svc.Close()
 		target := op.Path
@@ -186,10 +191,11 @@ func TestVerif_C20_HTTPForward(t *testing.T) {
 			req.SetBasicAuth("alice", "secret")
 		}
 		hc := &nethttp.Client{CheckRedirect: func(*nethttp.Request, []*nethttp.Request) error { return nethttp.ErrUseLastResponse },
-			Transport: &nethttp.Transport{DisableKeepAlives: true}, Timeout: 60 * time.Second}
+			Transport: &nethttp.Transport{DisableKeepAlives: true, DialContext: func(ctx context.Context, network, addr string) (net.Conn, error) { return c20Dial(addr) }}, Timeout: 60 * time.Second}
 		resp, err := hc.Do(req)
 		if err != nil {
-			rt.Skipf("infrastructure: %v", err)
+			rec.Label("inconclusive:infrastructure")
+			return
 		}
 		body, _ := io.ReadAll(resp.Body)
 		resp.Body.Close()
@@ -256,8 +262,8 @@ type c20MovingFollower struct {
 	leader string // raft address
 }
 
-func (f *c20MovingFollower) set(addr string) { f.mu.Lock(); f.leader = addr; f.mu.Unlock() }
-func (f *c20MovingFollower) get() string     { f.mu.Lock(); defer f.mu.Unlock(); return f.leader }
+func (f *c20MovingFollower) set(addr string)             { f.mu.Lock(); f.leader = addr; f.mu.Unlock() }
+func (f *c20MovingFollower) get() string                 { f.mu.Lock(); defer f.mu.Unlock(); return f.leader }
 func (f *c20MovingFollower) LeaderAddr() (string, error) { return f.get(), nil }
 func (f *c20MovingFollower) Leader() (*store.Server, error) {
 	return &store.Server{ID: "n", Addr: f.get()}, nil
@@ -300,12 +306,13 @@ func TestVerif_C20_RedirectSeq(t *testing.T) {
 		remote := &c20Remote{}
 		svc := New("127.0.0.1:0", st, remote, proxy.New(st, remote), nil)
 		svc.logger.SetOutput(io.Discard)
-		if err := svc.Start(); err != nil {
-			rt.Skipf("infrastructure: %v", err)
+		if err := c20Retry(svc.Start); err != nil {
+			rec.Label("inconclusive:infrastructure")
+			return
 		}
 		defer svc.Close()
 		hc := &nethttp.Client{CheckRedirect: func(*nethttp.Request, []*nethttp.Request) error { return nethttp.ErrUseLastResponse },
-			Transport: &nethttp.Transport{DisableKeepAlives: true}, Timeout: 60 * time.Second}
+			Transport: &nethttp.Transport{DisableKeepAlives: true, DialContext: func(ctx context.Context, network, addr string) (net.Conn, error) { return c20Dial(addr) }}, Timeout: 60 * time.Second}
 		gen := 0
 		for i, s := range steps {
 			if s.gapMs > 0 {
@@ -328,7 +335,8 @@ func TestVerif_C20_RedirectSeq(t *testing.T) {
 			}
 			resp, err := hc.Do(req)
 			if err != nil {
-				rt.Skipf("infrastructure: %v", err)
+				rec.Label("inconclusive:infrastructure")
+				return
 			}
 			io.Copy(io.Discard, resp.Body)
 			resp.Body.Close()
@@ -351,4 +359,53 @@ func TestVerif_C20_RedirectSeq(t *testing.T) {
 			}
 		}
 	})
+}
+
+// ---- infrastructure helpers (not part of any oracle) ----
+
+// c20Dial connects to addr from a random loopback source address 127.x.y.z.
+// Sockets of a client that closes (or half-closes) first stay in TIME_WAIT for
+// 60 s; with 127.0.0.1 as the only source address, thousands of short
+// connections per second from many check processes would leave no free port
+// for bind(127.0.0.1:0), i.e. for every new listener on the machine. Spreading
+// the client side over 127/8 keeps those sockets away from 127.0.0.1. A few
+// retries with back-off absorb transient failures.
+func c20Dial(addr string) (net.Conn, error) {
+	var last error
+	for try := 0; try < 5; try++ {
+		d := net.Dialer{Timeout: 10 * time.Second, LocalAddr: &net.TCPAddr{IP: net.IPv4(127, byte(1+rand.Intn(250)), byte(rand.Intn(256)), byte(1+rand.Intn(250)))}}
+		c, err := d.Dial("tcp", addr)
+		if err == nil {
+			return c, nil
+		}
+		last = err
+		time.Sleep(time.Duration(25*(try+1)) * time.Millisecond)
+	}
+	return nil, last
+}
+
+// c20Listen listens on 127.0.0.1:0, retrying a few times.
+func c20Listen() (net.Listener, error) {
+	var last error
+	for try := 0; try < 5; try++ {
+		ln, err := net.Listen("tcp", "127.0.0.1:0")
+		if err == nil {
+			return ln, nil
+		}
+		last = err
+		time.Sleep(time.Duration(50*(try+1)) * time.Millisecond)
+	}
+	return nil, last
+}
+
+// c20Retry runs f up to five times with a short back-off.
+func c20Retry(f func() error) error {
+	var last error
+	for try := 0; try < 5; try++ {
+		if last = f(); last == nil {
+			return nil
+		}
+		time.Sleep(time.Duration(50*(try+1)) * time.Millisecond)
+	}
+	return last
 }
